@@ -202,6 +202,25 @@ def proppatch_body(ops, root="{DAV:}propertyupdate", cdata=False):
     return "".join(parts).encode("utf-8")
 
 
+def reencode_xml(body, mode):
+    """The same XML request body in another encoding / with another Content-Type spelling.
+    -> (bytes, content type) or None if the text cannot be written in that encoding."""
+    text = body.decode("utf-8")
+    if mode == "latin1-both" or mode == "latin1-prolog":
+        try:
+            raw = text.replace('encoding="utf-8"', 'encoding="iso-8859-1"').encode("iso-8859-1")
+        except UnicodeEncodeError:
+            return None
+        return raw, ("application/xml; charset=iso-8859-1" if mode == "latin1-both" else "application/xml")
+    if mode == "utf8-param":
+        return body, 'text/xml; charset="utf-8"'
+    if mode == "appxml":
+        return body, "application/xml"
+    if mode == "utf16":
+        return text.replace('encoding="utf-8"', 'encoding="utf-16"').encode("utf-16"), "application/xml"
+    return body, "text/xml"
+
+
 def mkcol_body(kind, props=()):
     """Extended MKCOL (RFC 5689) body creating an addressbook / calendar / plain collection."""
     from xml.sax.saxutils import escape
